@@ -16,7 +16,7 @@ import re
 import core
 
 KINDS = ("process", "process16", "procrelay", "policy", "hdrc", "utf16c", "authpayload", "matchauth", "clientip",
-         "paa", "usertok", "handshake", "tunnel", "config", "ntlm", "relay", "segment", "oidc", "serving", "handshakegw")
+         "paa", "usertok", "handshake", "tunnel", "config", "ntlm", "relay", "segment", "oidc", "serving", "handshakegw", "tunnelauthgw")
 MAX_LINE = 1500      # characters of a case line: keeps the generated file small
 SAMPLE = 150
 
@@ -135,6 +135,11 @@ def term(c):
         idp = f[1].split(":")
         sub = "(Some %s)" % blist(hexf(idp[1])) if idp[0] == "valid" and len(idp) == 2 else "None"
         return "paa_obs (%s)%%Z %s %s" % (f[0], sub, tok)
+    if k == "tunnelauthgw":
+        rd = f[0]
+        redir = ("{| rf_clipboard := %s; rf_port := %s; rf_drive := %s; rf_printer := %s; rf_pnp := %s; rf_disable_all := %s; "
+                 "rf_enable_all := %s |}") % tuple(coq_bool(ch) for ch in rd[:7])
+        return "tunnelauthgw_obs %s (%s)%%Z %s" % (redir, f[1], coq_hexlist(f[2]))
     if k == "serving":
         m = f[0]
         return "serving_obs %s %s %s %s %s" % tuple(coq_bool(ch) for ch in m[:5])
